@@ -71,7 +71,13 @@ async def run(
         processes.append(process)
 
     # Wait for all processes to be done
-    await asyncio.gather(*processes)
+    try:
+        await asyncio.gather(*processes)
+    finally:
+        # If one process failed, the others must not keep running
+        for process in processes:
+            process.cancel()
+        await asyncio.gather(*processes, return_exceptions=True)
 
 
 async def sim_process(
